@@ -20,6 +20,9 @@ Str(s) == IF s = <<>> THEN "" ELSE s[1] \o Str(Tail(s))     \* TLC concatenates 
 Expect(pos, s) == [r \in AllRules |-> IF Defined(r, pos, s) THEN Str(Apply(r, pos, s)) ELSE "!U"]
 Predict(pos, s) == [r \in AllRules |-> IF M!TPanics(r, pos, s) THEN "!P" ELSE Str(M!TRename(r, pos, s))]
 
+\* every identifier is also written as a raw identifier (r#ident): serde_derive reads it with the prefix removed (unraw) before
+\* any rule is applied, so the required name is the same for both spellings
+Spellings == {"plain", "raw"}
 \* model-level comparison M = P (counted, not judged)
 Diverges(pos, r, s) == Defined(r, pos, s) /\ (M!TPanics(r, pos, s) \/ M!TRename(r, pos, s) # Apply(r, pos, s))
 
